@@ -331,6 +331,7 @@ static std::map<std::string, std::string> parse_kv(const std::string &s) {
 int main(int argc, char **argv) {
     vr::Args A(argc, argv);
     vr::Runner R;
+    if (A.has("deadline-s")) R.deadline_abs = vr::now_s() + A.getd("deadline-s", 0);
     uint64_t max_states = (uint64_t) A.geti("max-states", 5000000);
     if (A.has("replay-case")) {
         auto kv = parse_kv(A.get("replay-case"));
